@@ -122,7 +122,7 @@ PROPS['C02'] = {
     'level': 'proof',
     # the per-peer envelope decisions: nothing is interpreted unless plain mode was negotiated or a ready core opened it; nothing leaves
     # unsealed unless plain mode was negotiated (unit buffer, the same verbatim functions as for C08)
-    'verus': [{'unit': 'buffer', 'fns': ['PeerCrypto::(decrypt_message|encrypt_message|handle_message|send_message|get_core)', 'CryptoCore::(decrypt|encrypt)', 'is_init_message']},
+    'verus': [{'unit': 'buffer', 'fns': ['PeerCrypto::(decrypt_message|encrypt_message|handle_message|handle_init_message|send_message|get_core|get_init)', 'CryptoCore::(decrypt|encrypt)', 'is_init_message']},
               # key material of the slots a receiver is willing to open: the negotiated key or fresh random bytes, never constants
               {'unit': 'corekeys'}],
     'kani': {
@@ -281,7 +281,7 @@ PROPS['C08'] = {
                       r'kani::core::decrypt_with_key_contract': WINDOW_DRV,
                       'kani::coreblocks::decrypt_block_contract': {'file': 'native/core_keyid.rs', 'attach': 'src/crypto/core.rs', 'test': 'altered_key_id_is_rejected'}},
     'trusted': [
-        'env (NOT decided): PeerCrypto::handle_init_message -> InitState::handle_init is assumed total on every well-formed buffer; its first step, the decoder InitMsg::read_from, is under contract in unit codec',
+        'env (NOT decided): InitState::handle_init is assumed total on every well-formed buffer, to leave the buffer start at space_before, and to leave the buffer empty when the responder side completes; its first step, the decoder InitMsg::read_from, is under contract in unit codec; PeerCrypto::handle_init_message itself is verified verbatim (RotationState::new as environment)',
         'env: PeerCrypto::handle_rotate_message / RotationMessage parsing is reached only after the AEAD opened the datagram, i.e. not by an outsider',
         'the header/AEAD blocks inside CryptoCore::decrypt/encrypt are replaced by stand-ins here (rule B2); they are under contract as blocks in the Kani harnesses coreblocks::{decrypt,encrypt}_block_contract',
         'ring AEAD verdict is an oracle',
@@ -360,7 +360,7 @@ PROPS['C17'] = {
 CLOUD_TRUSTED = [
     'observable effects are modelled by two ghost logs (Device::written, Socket::sent) appended by Device::write / Socket::send; the traits are declared in the unit with exactly these contracts',
     'opaque environment with ASSUMED frames (not typed by Verus: format!, hooks, HashMap iteration, SmallVec): GenericCloud::{add_new_peer, update_peer_info, remove_peer, connect_sock, broadcast_msg} do not write to the interface; remove_peer sends nothing',
-    'ASSUMED: PeerCrypto::handle_message never reports a handshake datagram as Message(_) (reading of handle_init_message)',
+    'PeerCrypto::handle_message never reports a handshake datagram as Message(_): assumed in unit cloud, PROVED in unit buffer (obligations PeerCrypto::handle_message / handle_init_message, with InitState::handle_init as environment)',
     'HashMap<SocketAddr,_> through the vstd model (obeys_key_model::<SocketAddr>, builds_valid_hashers as axioms); HashMap::get_mut contract written in the unit',
     'R4: GenericCloud/PeerData pruned to the fields the dispatch functions use; R1: self.config.call_hook(..) statement and log macros dropped; R5: NodeInfo::decode(Cursor::new(..)) replaced by an opaque call',
 ]
@@ -386,7 +386,7 @@ PROPS['C01'] = {
               {'unit': 'cloud', 'fns': ['GenericCloud::responder_block', 'GenericCloud::handle_net_message']},
               # "accepts its payload only from a party that proved possession": before the handshake produced a core, or plain mode was
               # negotiated, no non-handshake datagram is interpreted by the per-peer object (also while the handshake is pending)
-              {'unit': 'buffer', 'fns': ['PeerCrypto::(decrypt_message|handle_message|get_core)', 'is_init_message']}],
+              {'unit': 'buffer', 'fns': ['PeerCrypto::(decrypt_message|handle_message|handle_init_message|get_core|get_init)', 'is_init_message']}],
     'native_search': {r'codec::(InitMsg|InitState).*': INIT_DRV},
     'trusted': CODEC_TRUSTED + CLOUD_TRUSTED + [
         'ring: Ed25519 verification and SHA-256 as uninterpreted functions ed25519_ok(key, data, signature), key_hash4(key, salt); R5 pinned statements: `signature::UnparsedPublicKey::new(&ED25519, &public_key_data)` + `public_key.verify(signed_data, &signature).is_err()`, `Self::calculate_hash(tk, &public_key_salt) == public_key_hash`',
